@@ -90,7 +90,8 @@ def replay(fl, FA, clause, hedge, vals, other=None):
         shapes = [np.array(0.3), np.array([0.3, 0.6, 0.0, 1.0]), np.array([[0.3, 0.6, 0.3], [0.0, 1.0, 0.25]]), np.array([[[0.5]], [[0.75]]]),
                   np.array([0.7]), np.array([[0.7]]),                       # one degree in an array keeps the array's shape
                   np.asfortranarray(base2), base2.T, base2[:, ::2],         # memory layout is not part of the value: column-major, transposed and strided views
-                  np.asarray(np.matrix([[0.5, 1.0], [0.25, 0.9]]))]        # (a plain ndarray built from a matrix)
+                  np.asarray(np.matrix([[0.5, 1.0], [0.25, 0.9]])),        # (a plain ndarray built from a matrix)
+                  np.array([]), np.zeros((0, 3))]                            # no degrees at all: no results
         for arr in shapes:
             exp = np.array([H(v) for v in arr.ravel()]).reshape(arr.shape)
             got = np.asarray(h.hedge(arr.copy(order="K") if arr.ndim else arr.copy()), dtype=float)
